@@ -1403,6 +1403,100 @@ func cliAsrFullCase(c *core.Ctx) {
 	cliAsrFull(c, ns, names, seqs, algoS, opts)
 }
 
+// ---- the flag default of --algo, judged on the code's own outputs ----
+
+// documentedDefaultAlgo is what the usage text of `gotree acr` / `gotree asr` (and the model: cliDefaultAlgo) say
+// the commands do when --algo is left out.
+const documentedDefaultAlgo = "acctran"
+
+// cliDefault runs `gotree <cmd>` on the same files without --algo and with --algo acctran / deltran / downpass and
+// reports the four standard outputs (trees with their comments and the steps lines).  The oracle needs no model:
+// the output without --algo must be the one of --algo acctran; the case is effective (tag algos-differ) when the
+// explicit runs differ from each other.  list1/list2 = lines of the states file / "" (acr), names / sequences (asr).
+func cliDefault(c *core.Ctx, cmd string, ns []*core.N, list1, list2 []string) {
+	in := []string{cmd, core.Dumps(ns), core.StrList(list1), core.StrList(list2)}
+	fail := func(o string) { c.Emit("C12.clidef", append(in, o, "", "", "", "")...) }
+	var nw strings.Builder
+	for _, n := range ns {
+		t, err := core.Build(n)
+		if err != nil {
+			panic(err)
+		}
+		nw.WriteString(t.Newick() + "\n")
+	}
+	treef := c.TmpFile(nw.String())
+	defer os.Remove(treef)
+	var dataf string
+	args := []string{cmd, "-i", treef}
+	if cmd == "acr" {
+		dataf = c.TmpFile(strings.Join(list1, "\n") + "\n")
+		args = append(args, "--states", dataf)
+	} else {
+		var fa strings.Builder
+		for i, nm := range list1 {
+			fa.WriteString(">" + nm + "\n" + list2[i] + "\n")
+		}
+		dataf = c.TmpFile(fa.String())
+		args = append(args, "-a", dataf)
+	}
+	defer os.Remove(dataf)
+	var outs []string
+	for _, a := range []string{"", "acctran", "deltran", "downpass"} {
+		ar := append([]string(nil), args...)
+		if a != "" {
+			ar = append(ar, "--algo", a)
+		}
+		r := c.RunCLI("", 30*time.Second, ar...)
+		if r.Timeout {
+			fail("panic:timeout")
+			return
+		}
+		if strings.Contains(r.Stderr, "panic:") || strings.Contains(r.Stderr, "goroutine ") {
+			fail("panic:" + core.Escape(r.Stderr[:min(len(r.Stderr), 200)]))
+			return
+		}
+		if r.Exit != 0 {
+			outs = append(outs, "exit")
+			continue
+		}
+		outs = append(outs, core.Escape(r.Stdout))
+	}
+	c.Emit("C12.clidef", append(in, "ok", outs[0], outs[1], outs[2], outs[3])...)
+}
+
+// cliDefaultCase: few states, clustered, on trees of 5..14 tips: the up-pass leaves ambiguous inner nodes that
+// ACCTRAN, DELTRAN and the plain down-pass resolve differently
+func cliDefaultCase(c *core.Ctx) {
+	g := c.G
+	o := treeOpts(g)
+	o.Singles = 0
+	o.Comments = 0
+	o.MinTips = 5 + g.Intn(10)
+	o.MaxTips = o.MinTips
+	o.Multif = 0.1
+	n, _ := g.Tree(o)
+	names := n.TipNames()
+	if g.Chance(0.5) {
+		st := []string{"x", "y", "z"}[:2+g.Intn(2)]
+		var lines []string
+		for _, nm := range names {
+			lines = append(lines, nm+"\t"+st[g.Intn(len(st))])
+		}
+		cliDefault(c, "acr", []*core.N{n}, lines, nil)
+		return
+	}
+	L := 2 + g.Intn(3)
+	seqs := make([]string, len(names))
+	for i := range seqs {
+		b := make([]byte, L)
+		for j := range b {
+			b[j] = "ACGT"[g.Intn(2+g.Intn(2))]
+		}
+		seqs[i] = string(b)
+	}
+	cliDefault(c, "asr", []*core.N{n}, names, seqs)
+}
+
 func parseDumps(s string) []*core.N {
 	var ns []*core.N
 	for _, d := range strings.Split(strings.TrimSuffix(s, "|"), "|") {
@@ -1443,6 +1537,16 @@ func Replay(c *core.Ctx, lines []string) {
 			if c.Gotree != "" {
 				a, _ := core.Unescape(f[3])
 				cliAcrFull(c, parseDumps(f[1]), parseList(f[2]), a, f[4])
+			}
+			continue
+		}
+		if f[0] == "C12.clidef" && len(f) >= 4 {
+			if c.Gotree != "" {
+				var l2 []string
+				if len(f) >= 5 {
+					l2 = parseList(f[4])
+				}
+				cliDefault(c, f[1], parseDumps(f[2]), parseList(f[3]), l2)
 			}
 			continue
 		}
@@ -1527,6 +1631,8 @@ func Run(c *core.Ctx) {
 		m := c.Scale(160, 2000)
 		for i := 0; i < m; i++ {
 			switch {
+			case i%10 == 4:
+				cliDefaultCase(c)
 			case i%8 == 2:
 				cliRCase(c, i/8)
 			case i%4 == 1:
